@@ -69,11 +69,22 @@ def _variadic(backends, op: str, arrs: list, axis: int, is_xr: bool):
     return f(*arrs)
 
 
+class NotInBackendApi(Exception):
+    """The backend's API cannot express the call (the xarray backend names the dimension, a name has no sign)."""
+
+
+# kinds whose axis the xarray backend takes as a dimension NAME; `stack` takes an int there but a negative one is
+# left out for xarray (see the rule text of c15.py and proposed_fixes/C15_xarray_stack_negative_axis.diff)
+XR_AXIS_BY_NAME = ("single", "concat", "stack")
+
+
 def call_backend(backends, case: dict, wrap):
     """Run the backend call a case of Arrays.tla describes; `wrap` is as_numpy or as_xarray."""
     is_xr = wrap is as_xarray
     arrs = [wrap(a, case.get("dt", "f8")) for a in case["args"]]
     k, op, axis = case["k"], case["op"], case["axis"]
+    if is_xr and axis < 0 and k in XR_AXIS_BY_NAME:
+        raise NotInBackendApi(k)
     if k == "multi":
         return getattr(backends, op)(*arrs)
     if k == "all":
